@@ -1099,9 +1099,42 @@ class Exec:
         if spec is None:
             raise ContractMismatch(f'loop #{ordn} at line {s.lineno} of {self.func.qual} needs an invariant '
                                    f'(the sidecar contract has none)')
+        # `peel`: the first iteration(s) are executed as they are (code that special-cases `i == 0`, e.g. a variable that
+        # is None before the first pass); the invariant cuts the loop from iteration `peel` on
+        peel = spec.get('peel', 0) if it is not None else 0
+        if peel:
+            states, out = [st], []
+            for t in range(peel):
+                nxt = []
+                for s0 in states:
+                    e0 = s0.copy()
+                    e0.assume(it.n <= t)
+                    e0.trace.append(f'loop{ordn}:exit')
+                    if self.feasible(e0, True):
+                        out.append((e0, NORMAL))
+                    s0.assume(it.n > t)
+                    if not self.feasible(s0, True):
+                        continue
+                    s0.trace.append(f'loop{ordn}:peeled{t}')
+                    s0.ghost['_j'] = s0.ghost[f'_j{ordn}'] = z3.IntVal(t)
+                    s0.ghost['_n'] = it.n
+                    self.assign(s.target, it.bind(self, s0, z3.IntVal(t)), s0)
+                    for s1, o1 in self.exec_block(s.body, s0):
+                        if o1.kind in ('normal', 'continue'):
+                            nxt.append(s1)
+                        elif o1.kind == 'break':
+                            out.append((s1, NORMAL))
+                        else:
+                            out.append((s1, o1))
+                states = nxt
+            for s0 in states:
+                out.extend(self._loop_cut(s, s0, it, ordn, spec, z3.IntVal(peel)))
+            return out
+        return self._loop_cut(s, st, it, ordn, spec, z3.IntVal(0))
+
+    def _loop_cut(self, s, st, it, ordn, spec, j0):
         inv, extra_havoc = spec['inv'], spec.get('havoc', ())
         out = []
-        j0 = z3.IntVal(0)
         st.ghost['_j'] = j0
         st.ghost[f'_j{ordn}'] = j0
         if it is not None:
@@ -1118,7 +1151,7 @@ class Exec:
         for nm in sorted(names | muts | set(extra_havoc)):
             if nm in h.vars:
                 h.vars[nm] = self.models.havoc(self, h, h.vars[nm], nm, nm in muts)
-        h.assume(j >= 0)
+        h.assume(j >= j0)
         if it is not None:
             h.assume(j <= it.n)
         if 'havoc_hook' in spec:
